@@ -1096,6 +1096,7 @@ func (m *machine) doBlock(dt int64) error {
 	refunded := map[int]coins{} // consumer -> refunds
 	charged := map[int]coins{}  // consumer -> Σ recorded fees of new requests
 	issuedFor := map[int]bool{} // consumers for whom requests were issued in this block
+	pausedFor := map[int]bool{} // consumers one of whose contexts was paused for lack of funds in this block
 	slashed := new(big.Int)
 
 	// ---- expirations at H: every still-active request is slashed and refunded once
@@ -1283,6 +1284,7 @@ func (m *machine) doBlock(dt int64) error {
 			}
 			// paused by the module: the consumer could not pay
 			m.cl["funds-pause"]++
+			pausedFor[c.consumer] = true
 			if c.module {
 				wantCbs = append(wantCbs, CbRecord{Kind: "state", CtxID: c.id, Cause: "insufficient balances"})
 			}
@@ -1315,6 +1317,10 @@ func (m *machine) doBlock(dt int64) error {
 					w = new(big.Int)
 				}
 				if g.Cmp(w) != 0 {
+					if pausedFor[u] && g.Cmp(w) < 0 {
+						return m.failf("failed-charge-debit", "height %d: consumer U%d could not pay for a batch (context paused, no request issued) but its %s balance changed by %s, expected %s; supply of %s changed by %v",
+							H, u, d, g, w, d, got.Sup[d])
+					}
 					if hasNew {
 						return m.failf("consumer-charge", "height %d: consumer U%d balance of %s changed by %s; fees recorded on the requests issued for them %s, refunds %s",
 							H, u, d, g, charged[u], refunded[u])
@@ -1349,7 +1355,7 @@ func (m *machine) doBlock(dt int64) error {
 			return err
 		}
 		for u := range m.E.Users {
-			if issuedFor[u] {
+			if issuedFor[u] || pausedFor[u] { // charges (and failed charges) are C07's business
 				continue
 			}
 			for _, d := range []string{baseDenom, "btc", "eth"} {
